@@ -112,8 +112,23 @@ def scope_family() -> list[tuple[str, str, list]]:
     add("glyphs-from-two-helpers", "lcd = LCD(rs=12, en=11, d4=5, d5=4, d6=3, d7=2)\ndef heart():\n    lcd.glyph(0, [0, 10, 31, 31, 14, 4, 0, 0])\n    lcd.glyph(1, [4, 14, 31, 4, 4, 4, 0, 0])\n"
         "def bell():\n    lcd.glyph(2, [4, 14, 14, 14, 31, 0, 4, 0])\n    lcd.glyph(3, [31, 17, 17, 17, 17, 17, 31, 0])\nlcd.glyph(4, [1, 2, 4, 8, 16, 8, 4, 2])\nheart()\nbell()\n"
         "while True:\n    lcd.glyph(5, [21, 10, 21, 10, 21, 10, 21, 10])\n    lcd.glyph(5, [10, 21, 10, 21, 10, 21, 10, 21])\n    heart()\n    sleep(100)\n")
-    add("glyphs-two-displays-two-helpers", "la = LCD(rs=12, en=11, d4=5, d5=4, d6=3, d7=2)\nlb = LCD(i2c_addr=0x27, cols=16, rows=2)\ndef pa(n):\n    la.glyph(0, [n, 10, 31, 31, 14, 4, 0, 0])\n    lb.glyph(0, [4, 14, 31, 4, 4, 4, 0, 0])\n"
+    add("glyphs-two-displays-two-helpers", "la = LCD(rs=12, en=11, d4=5, d5=4, d6=3, d7=2)\nlb = LCD(i2c_addr=0x27, cols=16, rows=2)\ndef pa(n):\n    la.glyph(0, [1, 10, 31, 31, 14, 4, 0, 0])\n    lb.glyph(0, [4, 14, 31, 4, 4, 4, 0, 0])\n"
         "def pb():\n    lb.glyph(1, [4, 14, 14, 14, 31, 0, 4, 0])\n    la.glyph(1, [31, 17, 17, 17, 17, 17, 31, 0])\npa(1)\npa(2)\npb()\n")
+    # device commands whose EVERY argument is a run-time value (each emitted block declares one scratch variable per argument)
+    rt = 'pot = Potentiometer("A0")\nva = pot.read()\nvb = pot.read() + 1\nvc = pot.read() // 2\n'
+    add("rt-args-buzzer", rt + "bz = Buzzer(8)\nbz.beep(va, on_ms=vb, off_ms=vc, times=va)\nbz.beep(frequency=va + 1, on_ms=vb + 1, off_ms=vc + 1, times=2)\nbz.play_tone(va, vb)\n"
+        "bz.sweep(va, vb, vc, va)\nbz.melody(\"siren\", tempo=va)\nwhile True:\n    bz.beep(va, vb, vc, 2)\n    bz.sweep(va, vb, duration_ms=vc, steps=va)\n")
+    add("rt-args-led-rgb", rt + "led = Led(5)\nrgb = RGBLed(3, 6, 9)\nled.blink(va, vb)\nled.fade_in(va, vb)\nled.fade_out(vb, va)\nled.flash_pattern([1, 0, 1], va)\nled.set_brightness(va)\n"
+        "rgb.set_color(va, vb, vc)\nrgb.blink(va, vb, vc, va, vb)\nrgb.fade(va, vb, vc, va, vb)\nwhile True:\n    rgb.fade(vc, vb, va, duration_ms=vb, steps=vc)\n    led.blink(vc, times=va)\n")
+    add("rt-args-servo-motor", rt + "sv = Servo(10)\nmot = DCMotor(2, 4, 11)\nsv.write(va)\nsv.write_us(vb + 1000)\nmot.set_speed(va * 0.001)\nmot.backward(vb * 0.001)\nmot.ramp(va * 0.001, vb)\n"
+        "mot.run_for(vb, vc * 0.001)\nwhile True:\n    mot.ramp(vc * 0.001, va)\n    mot.run_for(va, vb * 0.001)\n    sv.write(vc)\n")
+    add("rt-args-lcd", rt + "lcd = LCD(rs=12, en=11, d4=5, d5=4, d6=3, d7=2)\nlcd.write(va, vb, \"x\")\nlcd.line(va, \"y\")\nlcd.progress(va, vb, max_value=vc + 1, width=va)\nlcd.brightness(va)\n"
+        "while True:\n    lcd.progress(vb, vc, max_value=va + 1, width=vb, label=\"v\")\n    lcd.write(vc, va, \"z\")\n")
+    # f-strings whose FIRST piece is a replacement field with text in it (a conditional between literals, a helper's result, a String variable)
+    add("fstring-leading-text-fields", "led = Led(5)\nn = 3\nname = \"ab\"\ndef tag():\n    return \"t\"\n"
+        "mon.write(f\"{'ON' if led.get_state() else 'OFF'} after {n} toggles\")\nmon.write(f\"{'a' if n > 1 else 'b'}{'c' if n > 2 else 'd'}\")\n"
+        "mon.write(f\"{'x' if n > 1 else 'y'}{n}\")\nmon.write(f\"{name} is {n}\")\nmon.write(f\"{tag()}-{name}\")\nmon.write(f\"{'only' if n else 'one'}\")\n"
+        "msg = f\"{'hi' if n > 0 else 'lo'} there\"\nmon.write(msg)\ndef lab(k):\n    return f\"{'big' if k > 5 else 'small'}:{k}\"\nmon.write(lab(7))\n")
     add("helper-uses-led", "led = Led(5)\ndef flash():\n    led.on()\n    sleep(5)\n    led.off()\nwhile True:\n    flash()\n")
     add("helper-uses-pot", 'pot = Potentiometer("A0")\ndef level():\n    return pot.read()\nwhile True:\n    mon.write(level())\n')
     add("helper-uses-ultrasonic", "us = Ultrasonic(trig=7, echo=8)\ndef dist():\n    return us.measure_distance()\nwhile True:\n    mon.write(dist())\n", ["ultrasonic-in-helper"])
